@@ -166,6 +166,15 @@ type decRec struct {
 	F float64 `shp:"f"`
 }
 
+// a reader whose tags name columns the file does not have, while the Go names
+// of the fields do (matching is by tag or name)
+type decRecFallback struct {
+	G    geom.Geom
+	Ival int    `shp:"population"`
+	Sval string `shp:"label_x"`
+	F    float64
+}
+
 func try(f func()) (p string) {
 	defer func() {
 		if r := recover(); r != nil {
@@ -410,7 +419,14 @@ func roundTrip(kind string, recs []rec, api string) {
 				return
 			}
 			g, gi, gs, gf = r.G, r.I, r.S, r.F
-		} else if api == "struct" || api == "struct-string-last" || api == "struct-geometry-last" {
+		} else if api == "struct-geometry-last" {
+			var r decRecFallback
+			if p := try(func() { more = d.DecodeRow(&r) }); p != "" {
+				rep.Violation(fmt.Sprintf("struct-geometry-last|%s|DecodeRow-panic", kind), detail(n, p))
+				return
+			}
+			g, gi, gs, gf = r.G, r.Ival, r.Sval, r.F
+		} else if api == "struct" || api == "struct-string-last" {
 			var r decRec
 			if p := try(func() { more = d.DecodeRow(&r) }); p != "" {
 				rep.Violation(fmt.Sprintf("struct|%s|DecodeRow-panic", kind), detail(n, p))
@@ -492,7 +508,7 @@ func main() {
 		return
 	}
 	rep = report.New("C16", tier, "model_checking")
-	rep.Rule = "E1: for each of Point, MultiPoint, LineString, MultiLineString, Polygon, *Bounds: every shape with 1..3 parts/rings x 1..3 vertices (rings closed, closed with the closing vertex twice, and unclosed, both windings by rotation of the pattern list, every fourth rotation with a repeated consecutive vertex in every part) with coordinates from 19 finite float64 patterns, as single records, ordered pairs and triples of a reduced shape list, the empty file, files of 100 records and records with parts of up to 300 vertices / 40 parts; attributes int {0,-1,+-999999999,9999999999,42}, string {empty, 1 byte, 50 bytes, UTF-8, inner spaces, leading/trailing space, three byte strings that are not valid UTF-8, a tab / line feed / carriage return / no-break space / em space at either end}, float {0,-1.5,1/3,1e10,123456789.1234567891,-1e-10, 1e18, 2^63, -1e17 (these fill the 30-character field)}; multi-line strings also with empty parts after the first; the struct API (tags/names in different letter case between writer and reader; for every type also a record type whose last field is the geometry, for points also a record type whose last field is the string, and one in which the Go name of a field is the tag of another), the field API, both with attribute names of 11 bytes too, and the field API with geometry-only reads (no field names) on every other record. the struct and field APIs again with the written geometries cut from flat vertex buffers (not written to). Oracle: same number and order of records, every returned geometry and attribute map still intact after the last row, bit-identical coordinates part by part (unclosed rings closed, boxes as 5-vertex rectangles), ints equal, strings equal, floats within 1e-10. Non-trivial = files with >= 2 records or >= 2 parts."
+	rep.Rule = "E1: for each of Point, MultiPoint, LineString, MultiLineString, Polygon, *Bounds: every shape with 1..3 parts/rings x 1..3 vertices (rings closed, closed with the closing vertex twice, and unclosed, both windings by rotation of the pattern list, every fourth rotation with a repeated consecutive vertex in every part) with coordinates from 19 finite float64 patterns, as single records, ordered pairs and triples of a reduced shape list, the empty file, files of 100 records and records with parts of up to 300 vertices / 40 parts; attributes int {0,-1,+-999999999,9999999999,42}, string {empty, 1 byte, 50 bytes, UTF-8, inner spaces, leading/trailing space, three byte strings that are not valid UTF-8, a tab / line feed / carriage return / no-break space / em space at either end}, float {0,-1.5,1/3,1e10,123456789.1234567891,-1e-10, 1e18, 2^63, -1e17 (these fill the 30-character field)}; multi-line strings also with empty parts after the first; the struct API (tags/names in different letter case between writer and reader; for every type also a record type whose last field is the geometry (read back into a struct whose tags name no column of the file but whose field names do), for points also a record type whose last field is the string, and one in which the Go name of a field is the tag of another), the field API, both with attribute names of 11 bytes too, and the field API with geometry-only reads (no field names) on every other record. the struct and field APIs again with the written geometries cut from flat vertex buffers (not written to). Oracle: same number and order of records, every returned geometry and attribute map still intact after the last row, bit-identical coordinates part by part (unclosed rings closed, boxes as 5-vertex rectangles), ints equal, strings equal, floats within 1e-10. Non-trivial = files with >= 2 records or >= 2 parts."
 	tmpRoot = "/dev/shm"
 	if st, err := os.Stat(tmpRoot); err != nil || !st.IsDir() {
 		tmpRoot = os.TempDir()
